@@ -3094,8 +3094,9 @@ static void MakeCode_M16(void) {
     int z;
 
     DOpSize = AttrPartOpSize;
-    for (z = 1; z <= ArgCnt; OpSize[z++] = eSymbolSizeUnknown)
-        ;
+    for (z = 1; z < (int)(sizeof(OpSize) / sizeof(*OpSize)); z++) {
+        OpSize[z] = eSymbolSizeUnknown;
+    }
 
     /* zu ignorierendes */
 
